@@ -108,6 +108,7 @@ func c01OperatorHistory(c *Ctx) {
 	if !c01Check(c, start, f.IO, "start genome ("+f.StartSrc+")", nil) {
 		// the start genome itself is ill-formed: harness generator or shipped file problem, not an operator fault
 		c.violations = c.violations[:len(c.violations)-1]
+		c.violCount--
 		panic("harness: start genome is not well-formed: " + f.StartSrc)
 	}
 	var history []string
